@@ -78,7 +78,12 @@ pub fn run_case(_ctx: &Ctx, case: &Value, tag: usize, rep: &mut Report, mb: &mut
         let mbm = eng::mask_of(&mut b);
         let repro = json!({"case": case, "tokens": toks_a, "bytes": vocab::hex(&bytes)});
         let (Ok(ma), Ok(mbm)) = (ma.clone(), mbm.clone()) else {
-            if ma.is_ok() != mbm.is_ok() {
+            let limit = |r: &Result<Vec<u32>, String>| matches!(r, Err(e) if e.contains("Too many items"));
+            if limit(&ma) || limit(&mbm) {
+                // the per-step item budget is spent over the whole trie walk, so whether a very ambiguous grammar
+                // exhausts it depends on the vocabulary: a reported resource-limit stop, not a verdict on any token
+                rep.skip("mask-hit-item-limit");
+            } else if ma.is_ok() != mbm.is_ok() {
                 rep.fail("oracle", "c02:mask-error-differs", format!("step {step}: mask A {ma:?} vs B {mbm:?}"), repro);
             }
             break;
